@@ -151,6 +151,12 @@ def cut_at_completion(tokens, victim, tls13):
     return tokens
 
 
+# handshake messages also inserted *without* entering the puppet's
+# transcript (what an on-path attacker can do; only matters if the victim
+# silently drops the message)
+INSERTS_NOHASH = ["CH", "HREQ", "NST", "FIN", "CERT_EMPTY", "CR", "CKE",
+                  "SKE", "SHD", "CV", "KU", "EE", "HS99"]
+
 # first bytes of a KeyUpdate / of a NewSessionTicket: a handshake message
 # begun in the record that ends an epoch (RFC 8446 5.1: handshake messages
 # MUST NOT span key changes)
@@ -167,6 +173,8 @@ def deviations(honest, tls13=False):
         out.append({i: ("swap",)})
         for w in INSERTS:
             out.append({i: ("insert", w)})
+        for w in INSERTS_NOHASH:
+            out.append({i: ("insert-nohash", w)})
         if tls13 and dict(honest)[i] in ("CH", "SH", "FIN", "HRR"):
             for frag in FRAGMENTS:
                 out.append({i: ("straddle", frag)})
